@@ -25,7 +25,7 @@ import (
 // c14Expr is one expression of the closed expression vocabulary. The source
 // text and the reference value are both derived from it (c14ExprSrc, c14Eval).
 type c14Expr struct {
-	F string `json:"f"`           // var | path | not | gt | eq | cat | lit
+	F string `json:"f"`           // var | path | not | must | gt | eq | cat | lit
 	V string `json:"v,omitempty"` // variable name
 	L *TV    `json:"l,omitempty"` // literal (lit) or right operand (gt: int, eq/cat: string)
 }
@@ -74,6 +74,8 @@ func c14ExprSrc(e c14Expr) string {
 		return "o." + e.V
 	case "not":
 		return "!" + e.V
+	case "must": // the whole binding is a mustache: the value's text is the value
+		return "{{ " + e.V + " }}"
 	case "gt":
 		return fmt.Sprintf("%s > %d", e.V, e.L.I)
 	case "eq":
@@ -114,6 +116,12 @@ func c14Eval(e c14Expr, vars map[string]TV) (TV, bool) {
 	case "not":
 		t, dec := get().Truthy()
 		return tvB(!t), dec
+	case "must":
+		v := get()
+		if (v.K == "string" && v.S != "" && v.S != "false" && v.S != "0") || (v.K == "int" && v.I != 0) {
+			return tvS(c14Form(v)), true
+		}
+		return TV{}, false
 	case "gt":
 		v := get()
 		if v.K != "int" || e.L == nil {
@@ -320,6 +328,11 @@ func c14Atoms() []c14Atom {
 		add(bd(":", "data-c", c14Op("gt", "v$", tvI(3))), "v$", tvI(1))
 		add(bd(":", "data-c", c14Op("cat", "v$", tvS("-x"))), "v$", tvS("str"))
 		add(bd(":", "disabled", c14EVar("v$")), "v$", tvB(true))
+		// the whole binding written as a mustache
+		add(bd(":", "title", &c14Expr{F: "must", V: "v$"}), "v$", tvS("bound m"))
+		add(bd("v-bind:", "data-b", &c14Expr{F: "must", V: "v$"}), "v$", tvI(7))
+		add(bd(":", "class", &c14Expr{F: "must", V: "v$"}), "v$", tvS("m1 m2"))
+		add(bd(":", "style", &c14Expr{F: "must", V: "v$"}), "v$", tvS("color: red"))
 		// bound class
 		add(bd(":", "class", c14EVar("v$")), "v$", tvS("b1 b2"))
 		add(bd(":", "class", c14EVar("v$")), "v$", tvS(""))
@@ -519,7 +532,7 @@ func init() {
 
 func (p *c14) ID() string { return "C14" }
 func (p *c14) Rule() string {
-	return "one element (tag rotating over div/span/a/input/p) inside a wrapper with 1..6 attributes. Exhaustive part: every ordered sequence of <=2 (quick; plus a seed-dependent quarter of the ordered triples) or <=3 (thorough) atoms out of a vocabulary of " + fmt.Sprint(len(c14Atoms())) + " attribute atoms (static incl. padded/special/empty/bare values, interpolated incl. class/style, :/v-bind: bound with values of every truthiness incl. collisions with static names in both orders, class/style object syntax with quoted/unquoted/camelCase/--custom keys and literal/variable/expression values incl. ':' and ',', v-show, bracketed with and without {{ }}, v-if/v-else-if/v-else/v-for/v-html/v-text/v-once), invalid combinations (duplicate static names, two conditionals, ...) skipped; random part: 4..6 attributes drawn by a seeded generator from the larger vocabulary (all Go value kinds, random object literals). Non-trivial = every non-skipped case (each has at least one attribute whose output is decided by the model); distinct by (attributes, data)"
+	return "one element (tag rotating over div/span/a/input/p) inside a wrapper with 1..6 attributes. Exhaustive part: every ordered sequence of <=2 (quick; plus a seed-dependent quarter of the ordered triples) or <=3 (thorough) atoms out of a vocabulary of " + fmt.Sprint(len(c14Atoms())) + " attribute atoms (static incl. padded/special/empty/bare values, interpolated incl. class/style, :/v-bind: bound with values of every truthiness incl. collisions with static names in both orders, a binding written as one mustache (:title=\"{{ v }}\"), class/style object syntax with quoted/unquoted/camelCase/--custom keys and literal/variable/expression values incl. ':' and ',', v-show, bracketed with and without {{ }}, v-if/v-else-if/v-else/v-for/v-html/v-text/v-once), invalid combinations (duplicate static names, two conditionals, ...) skipped; random part: 4..6 attributes drawn by a seeded generator from the larger vocabulary (all Go value kinds, random object literals). Non-trivial = every non-skipped case (each has at least one attribute whose output is decided by the model); distinct by (attributes, data)"
 }
 
 // counts: n atoms; tri = number of ordered triples visited (all of them in the
